@@ -441,10 +441,38 @@ def run_fields(chk, F):
             root = root.get("base") if root.get("k") in ("member", "sub") else root.get("recv")
         if not (isinstance(root, dict) and root.get("k") == "ref" and root.get("dk") == "local"):
             writes_this.append(short(lhs))
-    cl = any(n.get("k") == "decl" and any(v.get("init") is not None and any(c.get("name") == "clone" for c in calls(v["init"]))
-                                         for v in n["vars"]) for n in walk(su["body"]))
-    chk.ob(rid, "subst|fresh-clone", cl and not writes_this,
-           "expression_t::subst writes through something other than a fresh clone(): %s" % writes_this,
+    # every local node object that subst writes through must be initialised by clone() of *this and nothing else: a
+    # conditional initialiser (`unique ? *this : clone()`) makes the written node alias the original on some path
+    written_locals = set()
+    for n in walk(su["body"]):
+        lhs = None
+        if n.get("k") == "bin" and n.get("op") == "=":
+            lhs = n["lhs"]
+        elif n.get("k") == "call" and n.get("ck") == "op" and n.get("op") == "=":
+            lhs = n.get("recv")
+        root = lhs
+        while isinstance(root, dict) and root.get("k") in ("member", "call", "sub"):
+            root = root.get("base") if root.get("k") in ("member", "sub") else root.get("recv")
+        if isinstance(root, dict) and root.get("k") == "ref" and root.get("dk") == "local" and root is not lhs:
+            written_locals.add(root.get("id"))
+    cl, alias = False, []
+    for n in walk(su["body"]):
+        if n.get("k") != "decl":
+            continue
+        for v in n["vars"]:
+            if v.get("id") not in written_locals or "expression_t" not in (v.get("t") or ""):
+                continue
+            init = v.get("init") or {}
+            while init.get("k") in ("cast", "defarg") or (init.get("k") == "construct" and len(init.get("args", [])) == 1):
+                init = init["e"] if init.get("k") in ("cast", "defarg") else init["args"][0]
+            if init.get("k") == "call" and init.get("name") == "clone" and (init.get("recv") is None or
+                                                                          init["recv"].get("k") == "this"):
+                cl = True
+            else:
+                alias.append("%s = %s" % (v["name"], short(init)[:60]))
+    chk.ob(rid, "subst|fresh-clone", cl and not writes_this and not alias,
+           "expression_t::subst writes through something other than a fresh clone() of *this (%s): the expression it is "
+           "applied to is changed, or shares the rewritten node with the result" % (writes_this + alias),
            "%s:%s" % (su["file"], su["line"]))
     ident = False
     for n in walk(su["body"]):
